@@ -303,11 +303,16 @@ def _check_corrupt(ctx: Ctx) -> None:
     else:
         # the stored name must not be re-assigned between the addition and the store
         nm = adds[0][1]
-        asg = [s for s in stmts if isinstance(s, (ast.Assign, ast.AugAssign)) and
-               any(isinstance(t, ast.Name) and t.id == nm for t in (s.targets if isinstance(s, ast.Assign) else [s.target]))
-               and not (isinstance(s, ast.Assign) and isinstance(s.value, ast.Constant) and s.value.value is None)]
-        if len(asg) != 1:
-            ok2, why = False, 'noise local `%s` is assigned %d times' % (nm, len(asg))
+        # the name must denote ONE array from the addition to the store: no rebinding / scaling in between
+        # (building it up before the addition, e.g. `noise = randn(..); noise *= sigma`, is fine)
+        order = {id(s): i for i, s in enumerate(stmts)}
+        i_add = order[id(adds[0][0])]
+        i_store = max(order[id(s)] for s in stores if not (isinstance(s.value, ast.Constant) and s.value.value is None))
+        lo, hi = min(i_add, i_store), max(i_add, i_store)
+        asg = [s for s in stmts if isinstance(s, (ast.Assign, ast.AugAssign)) and lo < order[id(s)] < hi and
+               any(isinstance(t, ast.Name) and t.id == nm for t in (s.targets if isinstance(s, ast.Assign) else [s.target]))]
+        if asg:
+            ok2, why = False, 'noise local `%s` is re-assigned between the addition and the store' % nm
     ctx.obligation('C08.c', construct + ':noise', ok2, {'added': [a[1] for a in adds], 'stored': nn})
     if not ok2:
         ctx.violation('C08.c', construct, 'reported last noise is not the noise added: ' + why, fn.path, fn.lineno,
